@@ -1,7 +1,7 @@
 (* C06 — non-vacuity examples, boundary behaviour, and the refutations of the
    pre-repair behaviour ([legacy = true]). *)
 From Coq Require Import ZArith List Bool QArith Lqa.
-From Verif Require Import C06.Model C06.Proofs C06.ProofsWorld C06.ProofsNonfinite.
+From Verif Require Import C06.Model C06.Proofs C06.ProofsWorld C06.ProofsNonfinite C06.ProofsReentry.
 Import ListNotations.
 Open Scope Q_scope.
 
@@ -483,4 +483,60 @@ Example ex_nonfinite_run_case :
                          mkXVoter (XActed ABlock None) (XFin 1) (XFin 1); mkXVoter XFailed XPInf (XFin 1)])) =
   [[1; 0; 1; 3; 0; 2; 1; 3]; [1; 0; 1; 1; 3; 0; 1]; [1; 0; 1; 1; 0; 1; 1]; [2; 1; 0; 1; 0; 0; 1];
    [-2; 3]; [1]; [1]; [0]; [-5; 3; 0; 1]]%Z.
+Proof. vm_compute. reflexivity. Qed.
+
+(* ---------------------------------------------------------------------- *)
+(* handlers that call back *)
+
+Definition all3 (a : action) : nat -> behaviour := script_of [Acted a (Some 1); Acted a (Some 1); Acted a (Some 1)].
+
+(* "delete all customer records": three BLOCKs; the on_quorum_failed handler asks
+   again ("archive customer records": three PERMITs) before the first call has
+   returned.  The outer call reports BLOCK 0/3/0, the nested one PERMIT 3/0/0;
+   on_quorum_failed was invoked once (row [-4; 2]); the counters say 6 ballots,
+   one quorum reached, one failed. *)
+Example ex_reentrant_retry :
+  run_case (CReentrant (cfg Majority, true, 30, [(1, 1); (1, 1); (1, 1)],
+                        [RVote 0 (all3 ABlock) None (Some (all3 APermit))])) =
+  [[1; 0; 1; 3; 0; 3; 0; 3]; [1; 1073741824; 1; 1]; [1; 1073741824; 1; 1]; [1; 1073741824; 1; 1]; [-7; 3]; [-4; 2];
+   [1; 1; 0; 3; 3; 0; 0; 3]; [0; 1073741824; 1; 1]; [0; 1073741824; 1; 1]; [0; 1073741824; 1; 1]; [-7; 3]; [-4; 0];
+   [-2; 3]; [0; 2; 0; 1073741824; 1073741824]; [1; 2; 0; 1073741824; 1073741824]; [2; 2; 0; 1073741824; 1073741824];
+   [-5; 6; 1; 1]]%Z.
+Proof. vm_compute. reflexivity. Qed.
+
+(* the hypotheses of c06_reentrant_call_returns_its_own_result are met, the trace
+   has the two votes, and their outcomes differ *)
+Example ex_reentrant_two_outcomes :
+  let w := init_world (cfg Majority) true 30 [(1, 1); (1, 1); (1, 1)] in
+  map (fun t => is_permit (snd t)) (wtrace false w (rexpand false w (RVote 0 (all3 ABlock) None (Some (all3 APermit)))))
+  = [false; true] /\
+  (* no handler on the side of the outcome: no nested call *)
+  map (fun t => is_permit (snd t)) (wtrace false w (rexpand false w (RVote 0 (all3 ABlock) (Some (all3 APermit)) None)))
+  = [false].
+Proof. vm_compute. split; reflexivity. Qed.
+
+(* ---------------------------------------------------------------------- *)
+(* a long-lived instance that grades its voters: member 0 is on the wrong side
+   eleven times; its reliability_score is 0 (never below), member 1's is 1 *)
+Definition round11 : list wop :=
+  concat (repeat [WOn 0 (TOp (OVote (script_of [Acted ABlock (Some 1); Acted APermit (Some 1); Acted APermit (Some 1)])));
+                  WOn 0 (TOp (OUpdateAll Permit))] 11).
+
+Example ex_graded_eleven_times :
+  map (fun p => (p_cast p, p_correct p, Qred (p_rel p)))
+      (w_colony (wfinal false (init_world (cfg Weighted) true 30 [(1, 1); (1, 1); (1, 1)]) round11))
+  = [(11%Z, 0%Z, 0); (11%Z, 11%Z, 1); (11%Z, 11%Z, 1)] /\
+  Forall wop_ok round11.
+Proof. split; [vm_compute; reflexivity | repeat constructor]. Qed.
+
+(* ... and then its heavy block does not count at all: one permit of weight 1
+   against blocks of weight 25 (reliability 0) - PERMIT; it stays PERMIT when
+   that member permits too *)
+Example ex_graded_then_weighted :
+  let w := wfinal false (init_world (cfg Weighted) true 30 [(1, 1); (1, 1); (1, 1)])
+                  (round11 ++ [WOn 0 (TOp (OSetWeight 0 25))]) in
+  map (fun sc => option_map is_permit (ask false w 0 (script_of sc)))
+      [[Acted ABlock (Some 1); Acted APermit (Some 1); Acted AOther None];
+       [Acted APermit (Some 1); Acted APermit (Some 1); Acted AOther None]]
+  = [Some true; Some true].
 Proof. vm_compute. reflexivity. Qed.
